@@ -282,3 +282,17 @@ mod test {
     assert_format(PascalCase, SNAKE, "SnakesLiveInForests");
   }
 }
+
+/// Verification hooks (cargo feature `verif-hooks`).
+#[cfg(feature = "verif-hooks")]
+#[doc(hidden)]
+pub mod verif_hooks {
+  /// `split` with the default separators (all delimiters + case change)
+  pub fn split_default(s: &str) -> Vec<&str> {
+    super::split(s, None).collect()
+  }
+  /// `split` with an explicit separator list
+  pub fn split_with<'a>(s: &'a str, seps: &[super::Separator]) -> Vec<&'a str> {
+    super::split(s, Some(seps)).collect()
+  }
+}
